@@ -264,6 +264,7 @@ def mentions (n : String) : E → Bool
   | dot x _ => mentions n x
   | index x y => mentions n x || mentions n y
   | group x => mentions n x
+  | opt a e => a == n || mentions n e
 def mentionsL (n : String) : List E → Bool
   | [] => false
   | a :: t => mentions n a || mentionsL n t
